@@ -92,6 +92,20 @@ def classify_c03(p, sc, msg):
             return "known", "F31"
         if trigger_F32(sc, fid, slots):
             return "known", "F32"
+    m = re.match(r"\[\w+\] task (\S+): (effort .* requested|a further slot)", msg)
+    if m:
+        fid = m.group(1)
+        booked = {}
+        for rid, r in sc["resources"].items():
+            for k, e in r["ledger"].items():
+                if any(t == fid for t, _ in e["usage"]):
+                    booked.setdefault(rid, []).append(int(k))
+        if len(booked) >= 2:      # a team: the effort clause inherits the team findings
+            slots = sorted(set().union(*[set(v) for v in booked.values()]))
+            if trigger_F31(p, fid):
+                return "known", "F31"
+            if trigger_F32(sc, fid, slots):
+                return "known", "F32"
     return "new", None
 
 
